@@ -3,10 +3,12 @@
 //@ assume: T7: the closure passed to txhashset::extending is lifted to the named function pb_inner (captured prev, b, ctx_specific_validation become parameters) and verified against the predicate the abstract `extending` hands back; in process_block the closure expression is replaced by the captured environment. T6: the four `let x = &mut ctx.field;` re-borrows are folded into the call; `?` error conversions dropped; log macros removed
 //@ assume: decided here: pipe::process_block moves the stored chain head ONLY to the tip of the block being processed, ONLY if that block has strictly more total difficulty than the head read at the start, and ONLY after check_known, the PoW check, header processing, validate_block and the whole extension closure (fork rewind, coinbase maturity, UTXO validation, block sums, apply + roots/sizes) succeeded; when the block has no more work the extension is force-rolled-back and the head is left untouched; every error path leaves the stored head untouched
 //@ assumed_items: 21
+//@ import: use vstd::std_specs::cmp::PartialEqSpecImpl;
 //@ fns: pipe::process_block, pipe::process_block (closure passed to txhashset::extending), pipe::has_more_work, pipe::update_head
-#[verifier::external_body]
 #[derive(Clone, Copy)]
-pub struct Hash { _p: u8 }
+pub struct Hash { pub v: u64 }
+impl PartialEqSpecImpl for Hash { open spec fn obeys_eq_spec() -> bool { true } open spec fn eq_spec(&self, other: &Hash) -> bool { self.v == other.v } }
+impl PartialEq for Hash { fn eq(&self, other: &Hash) -> (r: bool) { self.v == other.v } }
 #[derive(Clone, Copy, PartialEq, Eq, PartialOrd, Ord)]
 pub struct Difficulty { pub num: u64 }
 #[derive(Clone, Copy)]
@@ -24,6 +26,7 @@ pub struct HeaderPmmr { _p: u8 }
 
 impl BlockHeader {
     pub fn total_difficulty(&self) -> (r: Difficulty) ensures r == self.td { self.td }
+    pub fn hash(&self) -> (r: Hash) ensures r == self.id { self.id }
 }
 fn diff_gt(a: Difficulty, b: Difficulty) -> (r: bool) ensures r == (a.num > b.num) { a.num > b.num }
 impl Tip {
@@ -60,6 +63,10 @@ pub struct Extension { pub rollback: bool }
 pub struct HeaderExtension { pub _p: u8 }
 pub struct ExtensionPair { pub header_extension: HeaderExtension, pub extension: Extension }
 impl Extension {
+    /// offered so that a variant of the closure that rewinds ONLY the txhashset extension is decided: it moves the three MMRs to `h`
+    /// but says nothing about the header extension, which the fork rewind (sp_fork_applied) also has to put on the fork being extended
+    #[verifier::external_body]
+    pub fn rewind(&mut self, h: &BlockHeader, batch: &Batch) -> (r: Result<(), Error>) ensures final(self).rollback == old(self).rollback { unimplemented!() }
 //@ extract chain/src/txhashset/txhashset.rs :: impl Extension::force_rollback
 //@   ensures:
 //@+    final(self).rollback,
@@ -129,8 +136,8 @@ pub open spec fn sp_inner_ok(prev: BlockHeader, b: Block, head: Tip, fork_point:
 }
 
 //@ extract chain/src/pipe.rs :: fn process_block
-//@   closure 1 lifted_as `fn pb_inner(ext: &mut ExtensionPair, batch: &mut Batch, prev: &BlockHeader, b: &Block, ctx_specific_validation: &Allowed) -> Result<BlockHeader, Error>`
-//@   rewrite `rewind_and_apply_fork(&prev, ext, batch, ctx_specific_validation)?` => `rewind_and_apply_fork(prev, ext, batch, ctx_specific_validation)?`
+//@   closure 1 lifted_as `fn pb_inner(ext: &mut ExtensionPair, batch: &mut Batch, prev: &BlockHeader, b: &Block, ctx_specific_validation: &Allowed, head: &Tip) -> Result<BlockHeader, Error>`
+//@   rewrite `rewind_and_apply_fork(&prev, ext, batch, ctx_specific_validation)?` => `rewind_and_apply_fork(prev, ext, batch, ctx_specific_validation)?` x?
 //@   ensures:
 //@+    r matches Ok(fp) ==> sp_inner_ok(*prev, *b, old(batch).body_head@, fp, final(ext).extension.rollback),
 //@+    final(batch).body_head@ == old(batch).body_head@,
